@@ -245,12 +245,29 @@ def judge_histories(run, wd, name, groups, max_reports=6):
     return reported
 
 
-def conformance(run, wd, kind, runs, cap):
+def cover_first(label_sets):
+    """ids ordered so that a short prefix covers every explorer label (greedy set cover), then the rest"""
+    todo = set().union(*label_sets.values()) if label_sets else set()
+    rest = dict(label_sets)
+    order = []
+    while todo and rest:
+        best = max(rest, key=lambda i: len(rest[i] & todo))
+        if not rest[best] & todo:
+            break
+        order.append(best)
+        todo -= rest.pop(best)
+    return order + list(rest)
+
+
+def conformance(run, wd, kind, runs, cap, prefer=()):
     """Step-level validation of scripted and random runs against the explorer; returns (validated, nonconforming,
     ordering table label -> sorted list of "ord/ord2/write?")."""
     table = {}
+    rank = {rid: i for i, rid in enumerate(prefer)}
     sel = [r for r in runs if r[0]["kind"] == kind and any(x["ev"] == "step" for x in r) and r[0].get("n", 9) <= 3
-           and r[-1].get("outcome") == "completed"][:cap]
+           and r[-1].get("outcome") == "completed"]
+    sel.sort(key=lambda r: rank.get(r[0].get("id"), len(rank)))
+    sel = sel[:cap]
     bad = 0
     done = 0
     alive = list(range(len(sel)))
@@ -321,7 +338,7 @@ def part_threads(run, wd, kind, thorough):
         cexes.append(("roles", cex, r))
     hs = leaves(schedules(r.out))
     n_leaves = len(hs)
-    cap = 2500 if thorough else 450
+    cap = 2500 if thorough else 300
     if len(hs) > cap:
         hs = rng.sample(hs, cap)
     if thorough:
@@ -341,22 +358,24 @@ def part_threads(run, wd, kind, thorough):
         rs, _ = run_explorer(run, wd, kind, "sim", thr3, "MenuFull", 2, gen="GenFinal", simulate=800, seed=run.seed % 100000)
         hs += schedules(rs.out)
     sid = 1
+    label_sets = {}
     for h in hs:
         stimuli.append(stim_from_hist(kind, h, sid, run.seed))
+        label_sets[sid] = set(e[1] for e in h)
         sid += 1
     for name, cex, _ in cexes:
         st = stim_from_hist(kind, cex, sid, run.seed)
         st["src"] = "counterexample:" + name
         stimuli.append(st)
         sid += 1
-    stimuli += random_stimuli(kind, 2000 if thorough else 350, run.seed, sid)
+    stimuli += random_stimuli(kind, 2000 if thorough else 250, run.seed, sid)
     runs = run_threads(wd, kind, stimuli)
     if len(runs) != len(stimuli):
         raise vlib.ToolError("h_reset threads: %d runs for %d stimuli" % (len(runs), len(stimuli)))
     scripted = [r for r, st in zip(runs, stimuli) if st["strategy"] == "script"]
     drift = sum(1 for r in scripted if r[-1].get("drift", 0) > 0)
     hung = [r for r in runs if r[-1].get("outcome") != "completed"]
-    done, bad, table = conformance(run, wd, kind, runs, 800 if thorough else 200)
+    done, bad, table = conformance(run, wd, kind, runs, 800 if thorough else 120, cover_first(label_sets))
     info = {"kind": kind, "stimuli": len(stimuli), "state_cover_leaves": n_leaves, "scripted": len(scripted),
             "scripted_runs_with_drift": drift, "runs_not_completed": len(hung), "step_validated_runs": done,
             "step_nonconforming_runs": bad, "ordering_table_by_label": table,
@@ -385,7 +404,7 @@ def part_local(run, wd, thorough):
             raise vlib.ToolError("LocalResetImpl %s: %s (single-threaded model: a counterexample is replayed below only if "
                                  "it reaches a final state)\n%s" % (kind, r.violation, r.cex[:3000]))
         rng = random.Random(run.seed + 17)
-        cap = 3000 if thorough else 500
+        cap = 3000 if thorough else 350
         if len(progs) > cap:
             progs = rng.sample(progs, cap)
         for acts in progs:
@@ -395,7 +414,7 @@ def part_local(run, wd, thorough):
     n_model = len(stimuli)
     # seeded random programs with deeper re-entrancy than the model's bound
     rng = random.Random(run.seed + 19)
-    for i in range(1500 if thorough else 250):
+    for i in range(1500 if thorough else 150):
         kind = rng.choice(["auto", "manual"])
         ops = ["set", "try", "poll", "poll", "drop"] + (["reset"] if kind == "manual" else [])
         acts = []
@@ -429,7 +448,7 @@ def part_local(run, wd, thorough):
 def part_awset(run, wd, thorough):
     cfg = os.path.join(wd, "awset.cfg")
     consts = "NodeCount = 3 MaxOpsS = %d MaxGen = 3" % (6 if thorough else 5)
-    open(cfg, "w").write("CONSTANTS %s\nINIT GInit\nNEXT GNext\nVIEW GView\nACTION_CONSTRAINT LeafWitness\n"
+    open(cfg, "w").write("CONSTANTS %s\nINIT GInit\nNEXT GNext\nVIEW GView\nACTION_CONSTRAINT EdgeWitness\n"
                          "INVARIANT TypeOK WellFormed GenMonotone Abstraction JudgeAccepts\nCHECK_DEADLOCK FALSE\n" % consts)
     r = tlc(D, "MC_AwaiterSet", cfg=cfg, workers=1, timeout=2400, xmx="8g", coverage=thorough)
     run.add_tlc("AwaiterSet (%s)" % consts, r)
@@ -438,9 +457,11 @@ def part_awset(run, wd, thorough):
     if r.violation:
         raise vlib.ToolError("AwaiterSet explorer violates %s: the model of set.rs is wrong or set.rs changed\n%s"
                              % (r.violation, r.cex[:3000]))
-    hists = [json.loads(s) for s in tlc_prints(r.out, "AWS")]
+    # one witness per explored transition (edge cover); keep those that are not a prefix of another one
+    hists = leaves([tuple((o["op"], o["n"]) for o in json.loads(s)) for s in tlc_prints(r.out, "AWS")])
+    hists = [[{"op": a, "n": b} for a, b in h] for h in hists]
     rng = random.Random(run.seed + 23)
-    cap = 6000 if thorough else 1000
+    cap = 6000 if thorough else 700
     n_all = len(hists)
     if len(hists) > cap:
         hists = rng.sample(hists, cap)
